@@ -246,3 +246,39 @@ func VerifFrequency[K comparable, V any](cc *Cache[K, V], key K) (freq uint64, e
 	s := c.evictionPolicy.sketch
 	return s.frequency(key), !s.isNotInitialized(), s.size
 }
+
+// VerifEvictionMutex returns the address of the eviction lock (the harness brackets maintenance
+// passes with it).
+func VerifEvictionMutex[K comparable, V any](cc *Cache[K, V]) unsafe.Pointer {
+	return unsafe.Pointer(&cc.cache.evictionMutex)
+}
+
+// VerifPolicyNode is one node linked in the eviction policy (a key can have two for a moment: the
+// replaced node whose update event has not been replayed yet, and its successor).
+type VerifPolicyNode[K comparable, V any] struct {
+	Key    K
+	Queue  int // 0 window, 1 probation, 2 protected
+	Weight uint32
+	Value  V
+}
+
+// VerifPolicyNodes lists every node linked in the eviction policy, queue by queue in queue order.
+// Call it only while holding the eviction lock (or at quiescence).
+func VerifPolicyNodes[K comparable, V any](cc *Cache[K, V]) []VerifPolicyNode[K, V] {
+	var out []VerifPolicyNode[K, V]
+	c := cc.cache
+	if !c.withEviction {
+		return out
+	}
+	p := c.evictionPolicy
+	for n := range p.window.All() {
+		out = append(out, VerifPolicyNode[K, V]{n.Key(), 0, n.Weight(), n.Value()})
+	}
+	for n := range p.probation.All() {
+		out = append(out, VerifPolicyNode[K, V]{n.Key(), 1, n.Weight(), n.Value()})
+	}
+	for n := range p.protected.All() {
+		out = append(out, VerifPolicyNode[K, V]{n.Key(), 2, n.Weight(), n.Value()})
+	}
+	return out
+}
